@@ -132,6 +132,11 @@ def check(case, stats=None):
                 if fail:
                     return [fail]
                 whole = t if lazy else whole
+            # the library's own count of the records of the file
+            if recs:
+                n_counted = bnp.count_entries(path)
+                if n_counted != len(recs):
+                    return [Failure("C16:count_entries", {"expected": len(recs), "actual": int(n_counted)})]
             largest = max((len(bamenc.record_bytes(r)) for r in recs), default=1)
             for k in case.get("ks", []):
                 k = max(k, largest)
